@@ -56,9 +56,7 @@
 EXTENDS Integers, Sequences, FiniteSets, TLC, Functions
 
 CONSTANTS MaxLen,      \* history sizes 1..MaxLen
-          SmallLen,    \* vectors of length <= SmallLen take entries 0..BigVal,
-          BigVal,      \*   longer ones entries 0..SmallVal
-          SmallVal,
+          MaxSum,      \* integer weights >= 0 (zeros anywhere) with 1 <= sum <= MaxSum
           Bins,        \* set of bins_trim arguments (>= 2)
           EssPct,      \* set of ess_trim arguments in percent
           MarginInv,   \* decisions with relative margin < 1/MarginInv are flagged
@@ -150,9 +148,8 @@ ToSet(s) == {s[p] : p \in 1..Len(s)}
 ExactUniform == (\A j \in All : w[j] = w[1]) /\ N \in {1, 2, 4, 8}
 
 -----------------------------------------------------------------------------
-ValsFor(len) == IF len <= SmallLen THEN 0..BigVal ELSE 0..SmallVal
 WeightVectors ==
-    {v \in UNION {[1..n -> ValsFor(n)] : n \in 1..MaxLen} : S1(v, Idx(v)) > 0}
+    {v \in UNION {[1..n -> 0..MaxSum] : n \in 1..MaxLen} : S1(v, Idx(v)) \in 1..MaxSum}
 
 MinOfSet(T) == CHOOSE x \in T : \A y \in T : x <= y
 
@@ -294,7 +291,7 @@ PO_Weights ==
 \* without resampling, weight p is the weight of record xs[p], renormalised over the kept rows
 PO_WeightsAligned ==
     (Trimmed /\ Len(wn) = Len(xs) /\ (~Resample \/ pc = "resample")) =>
-        \A p \in 1..Len(wn) : wn[p] * S1(w, ToSet(Kept)) = w[xs[p]] * wd
+        LET sk == S1(w, ToSet(Kept)) IN \A p \in 1..Len(wn) : wn[p] * sk = w[xs[p]] * wd
 \* with resampling the weights are uniform 1/n
 PO_Uniform ==
     (Done /\ Resample) => \A p \in 1..Len(wn) : wn[p] * Len(wn) = wd
@@ -302,10 +299,11 @@ PO_Uniform ==
 \* the kept set under trimming is a non-empty upper set of the weights, in input order
 PO_UpperSet ==
     (Trimmed /\ Trimming) =>
+        LET ms == ToSet(mask) d == D IN
         /\ mask # <<>>
-        /\ \A j \in ToSet(mask) : \A j2 \in All \ ToSet(mask) : w[j2] < w[j]
+        /\ \A j \in ms : \A j2 \in All \ ms : w[j2] < w[j]
         /\ \A p \in 2..Len(mask) : mask[p - 1] < mask[p]
-        /\ LET d == D IN ToSet(mask) = {j \in All : w[j] * d >= thN}
+        /\ ms = {j \in All : w[j] * d >= thN}
 PO_EssRatio == (Trimmed /\ Trimming) => RatioGE(ToSet(mask))
 PO_TrimTerminates == i >= 0
 \* without trimming nothing is dropped; without resampling the kept rows are returned in order
@@ -313,7 +311,7 @@ PO_NoResampleKeepsOrder == (Done /\ ~Resample) => xs = Kept
 \* resampling draws exactly as many rows as are in play, all of them kept rows of positive weight
 PO_FromKept ==
     (Done /\ Resample) => /\ Len(xs) = Len(Kept)
-                          /\ \A p \in 1..Len(xs) : xs[p] \in ToSet(Kept) /\ w[xs[p]] > 0
+                          /\ LET ks == ToSet(Kept) IN \A p \in 1..Len(xs) : xs[p] \in ks /\ w[xs[p]] > 0
                           /\ \A p \in 2..Len(xs) : xs[p - 1] <= xs[p]
 
 \* output arity as documented
